@@ -159,8 +159,16 @@ CLAIMED["C20"] = dict(
     note=TRUST + "Assumed (library behaviour, not decided): http.ServeMux dispatches a request under a subtree pattern P+'/' to that pattern's handler and prefers the longest pattern, http.StripPrefix(P, h) serves path P+rest as rest, strings.TrimSuffix (model listed), h2c/http2 wiring leaves the handler's behaviour unchanged. The equivalence 'same status, headers and body as the bare mux' is therefore reduced to these clauses plus those assumptions; the witness verifWitnessMountPrefix exercises it through the real net/http when a clause fails.",
     ref="DESIGN.md sections 5 C20 and 10.3")
 
+CLAIMED["C13"] = dict(
+    text=("Partial proof of the sequential hand-back discipline of pooled objects (not of schedules or races): a pooled gzip reader goes back to its pool at most once per hand-out and the wrapper a request holds never keeps, reads or returns a reader that is in the pool "
+          "(ghost state 'pooled' on the gzip.Reader; representation invariant of gzipReader as pre- and postcondition of Read, whatever the caller does after the end of the body); "
+          "on every path of streamGRPC.RecvMsg / SendMsg the scratch buffer taken from bufPool goes back exactly once and is neither read nor measured after it went back; "
+          "the carry-over of an HTTP client stream (streamHTTP.rbuf) never shares its backing array with the caller's pooled buffer, and readAll / the stream codecs return either the caller's buffer or a fresh one; "
+          "HttpBody data handed to the request message is a copy, not the pooled buffer; a reply compressor that serveHTTP's body closed is not closed again by the deferred close (a second Close would pool the gzip writer twice)."),
+    note=TRUST + "Two defects found by these clauses were repaired (double Put of the gzip reader, buf.Len() after Put: known_findings.json). NOT decided: everything that needs a schedule - which goroutine receives what from a sync.Pool, data races in general (the generator drops go statements and sync primitives), the proxy's pump goroutines, the deferred Put of bytesPool buffers (deferred closures are verified as separate functions), pooled gzip writers inside CompressorGzip.Compress / Decompress (interior pointers to the pools are outside the value model). Assumed: sync.Pool hands out an object only after it was put back or newly made; (*gzip.Reader).Read behaves as an io.Reader and writes no larking struct; ghost fields are not changed by calls into dependencies.",
+    ref="DESIGN.md sections 5 C13 and 10.3")
+
 NA = {
-    "C13": "pool reuse, goroutine lifetimes and data races are statements over schedules; no permission/ownership logic for sync.Pool hand-offs, go/sync are dropped by the generator (DESIGN 5 C13)",
 }
 
 PENDING = "contracts for this property are not yet discharged by the framework (build order in DESIGN.md section 9); not claimed until its obligations are green"
